@@ -1,4 +1,4 @@
-\* GEN_users -- generated by mkcfg.py; two users on one 5-tuple: ownership checks on every method
+\* GEN_users -- generated by mkcfg.py; two users on one 5-tuple: ownership checks on every method; u2 is over its allocation quota
 SPECIFICATION Spec
 VIEW View
 CONSTANTS
@@ -24,6 +24,7 @@ CONSTANTS
   Denied <- MCNoDenied
   Toks = {"none"}
   ResvTO = 30
+  QuotaDenied = {"u2"}
   MaxDepth = 5
 CONSTRAINT DepthBound
 ACTION_CONSTRAINT EmitEdge
